@@ -120,11 +120,16 @@ func genC11(t *rapid.T) PairCase {
 		a = gen.Doc(t, p)
 	}
 	var b val.V
-	switch gen.Int(t, "mode", 0, 9) {
+	switch gen.Int(t, "mode", 0, 10) {
 	case 0:
 		b = gen.Doc(t, p)
 	case 1:
 		b = map[string]val.V{}
+	case 10:
+		b = gen.SwapValues(t, a, 50)
+		if gen.Chance(t, "andPermute", 50) {
+			b = gen.Permute(t, b, 60)
+		}
 	default:
 		b = gen.EditN(t, a, p, 1, 5)
 	}
